@@ -17,6 +17,8 @@ CONSTANTS
  Exts = {TRUE, FALSE}
  KeepSlots = FALSE
  TarUnverified = FALSE
+ MTs = {TRUE, FALSE}
+ DigestHdrs = {"absent", "echo", "served", "servedother", "garbage"}
 INIT GInit
 NEXT GNext
 INVARIANTS Emit
